@@ -11,6 +11,7 @@ EXPLANATION = (
     "D3 conjunction of bounds (shared with C03); D4 brace-free patterns with '<' or '>' are compiled by Dewey::new(pattern)? in Pattern::new and matched by Dewey::matches(pkg) in Pattern::matches, and the fast-reject in front of the delegate is inert (is_simple_char / quick_pkg_match / early-exit rules shared with C05)")
 NOT_DECIDED = ["byte-for-byte equality semantics of str::eq; match_indices / str::get semantics (std)"]
 CONFIG_SENSITIVE = False
+DESUGAR = True
 
 DN = "dewey::Dewey::new"
 DM = "dewey::Dewey::matches"
@@ -109,10 +110,10 @@ def run(ctx):
             for p in ps:
                 if unwrap_ok(p.end[1]) is not None:
                     outs.add("Ok")
+                elif is_propagated_err(p.end[1]):
+                    outs.add("Ok")  # only DeweyMatch::new's (infallible) error channel: same arm as Ok
                 elif unwrap_err(p.end[1]) is not None:
                     outs.add("Err")
-                elif find_calls(p.end[1], "from_residual"):
-                    outs.add("Ok")  # only DeweyMatch::new's (infallible) error channel: same arm as Ok
             want = "Ok" if (n == 1 or (n == 2 and kinds[0] in ("GT", "GE") and kinds[1] in ("LT", "LE"))) else "Err"
             if outs != {want}:
                 bad.append((n, kinds, sorted(outs), want))
@@ -239,7 +240,7 @@ def run(ctx):
             mt = agg_variant(flds.get("matchtype"))
             if mt and mt[1] == "Dewey":
                 d = unwrap_some(flds.get("dewey"))
-                ok = d is not None and bool(find_calls(d, DN)) and bool(find_calls(d, "Try>::branch")) and strip_refs(call_args(find_calls(d, DN)[0])[0]) == ("param", 1)
+                ok = d is not None and bool(find_calls(d, DN)) and has_try(d) and strip_refs(call_args(find_calls(d, DN)[0])[0]) == ("param", 1)
                 brace = [c for c in p.conds() if is_call(c.term, "str>::contains") and const_char(call_args(c.term)[1]) in ("{", "}")]
                 ok = ok and len(brace) == 2 and all(c.fact == ("eq", False) for c in brace)
         ctx.check(ok, "D4-PATTERN-AGREES", "pattern::Pattern::new", "dewey-arm", "brace-free '<'/'>' patterns compile with Dewey::new(pattern)?",
